@@ -263,11 +263,14 @@ class Builder(ExprMixin):
                 return deco, inner[0], params[0]
         return None
 
-    def inline(self, func, recv, args, kwargs, preds, entry=False, defining_cls=None, closure=None, skip_wrapper=False):
+    def inline(self, func, recv, args, kwargs, preds, entry=False, defining_cls=None, closure=None, skip_wrapper=False, yield_hook=None):
         """Inline a call of ``func``.  Returns (preds, return value)."""
         if not preds:
             return set(), Val("unknown", "dead")
-        lw = None if skip_wrapper else self.local_wrapper(func)
+        if not yield_hook and any(d.split(".")[-1] == "contextmanager" for d in func.decorators):
+            # calling a @contextmanager generator function runs nothing; `with` drives it (with_genctx)
+            return set(preds), Val("genctx", func, recv, tuple(args), tuple(sorted((kwargs or {}).items())))
+        lw = None if (skip_wrapper or yield_hook) else self.local_wrapper(func)
         if lw is not None:
             deco, wrapper, pname = lw
             raw = Val("rawfunc", func, recv)
@@ -300,6 +303,7 @@ class Builder(ExprMixin):
         frame = Frame(func, recv, defining_cls or func.cls)
         frame.key = key
         frame.closure = closure or {}
+        frame.yield_hook = yield_hook
         saved_stmt = self.cur_stmt
         self.frames.append(frame)
         try:
@@ -696,6 +700,8 @@ class Builder(ExprMixin):
         item = st.items[i]
         self.cur_stmt = st
         cm, preds = self.ev(item.context_expr, preds)
+        if cm.kind == "genctx":
+            return self.with_genctx(st, i, item, cm, preds)
         ev_, preds = self.call_method(cm, "__enter__", [], {}, preds)
         if item.optional_vars is not None:
             preds = self.assign(item.optional_vars, ev_, preds)
@@ -729,6 +735,29 @@ class Builder(ExprMixin):
                 # __exit__ with an unknown result may swallow the exception
                 out = set(out) | set(epreds)
         self.counts = counts_normal if body_out else dict(counts_after_enter)
+        return out
+
+    def with_genctx(self, st, i, item, cm, preds):
+        """`with gen_cm(...) as x: BODY` for a @contextmanager generator: the generator's body is inlined and BODY runs
+        at its `yield` (in the caller's frame).  An exception in BODY is raised at the yield, inside whatever
+        with/try blocks of the generator enclose it - exactly contextlib's throw().  Not modelled: a return /
+        break / continue inside BODY (the generator's clean-up after the yield is then skipped by the model)."""
+        func, recv, args, kwargs = cm.args
+        depth0 = len(self.frames)
+
+        def hook(value, ypreds):
+            saved_frames, saved_stmt = self.frames, self.cur_stmt
+            self.frames = saved_frames[:depth0]
+            try:
+                p_ = ypreds
+                if item.optional_vars is not None:
+                    p_ = self.assign(item.optional_vars, value, p_)
+                return self.with_items(st, i + 1, p_)
+            finally:
+                self.frames, self.cur_stmt = saved_frames, saved_stmt
+
+        out, _rv = self.inline(func, recv, list(args), dict(kwargs), preds, yield_hook=hook)
+        self.cur_stmt = st
         return out
 
     def st_Try(self, st, preds):
